@@ -175,6 +175,10 @@ class C05(core.Check):
         for what in ["cyl-cyl", "cyl-ring", "box-grid", "hemi", "cyl-merged"]:
             for order in (False, True):
                 cases.append({"kind": "shape", "what": what, "r": rng.choice([1, 2]), "order": order})
+        # malformed stream: ill-formed requests are answered `bad-op`, never with a default value
+        for req in ["c05.asm", "c05.asm - 0,0,0|-|-|-,-,-,-", "c05.asm - 0,0,0;1,0,0;1,1,0;0,1,0;0,0,1;1,0,1;1,1,1;0,1,1|-|-|-,-,-",
+                    "c05.adds 0,0|a", "c05.adds 0,0,0", "c05.corner 0,0,0;1,0,0;1,1,0;0,1,0;0,0,1;1,0,1;1,1,1;0,1,1|-|-|-,-,-,- 8", "c05.x"]:
+            cases.append({"kind": "protocol", "req": req})
         if tier == "thorough":
             for _ in range(60):
                 base = gen_asm(rng, rng.randint(2, 4))
@@ -232,6 +236,8 @@ class C05(core.Check):
         from classy_blocks.construct.point import Point
         from classy_blocks.lists.vertex_list import VertexList
 
+        if case["kind"] == "protocol":
+            return {"protocol": True}
         if case["kind"] == "adds":
             vl = VertexList()
             res = []
@@ -297,6 +303,8 @@ class C05(core.Check):
         )
 
     def requests(self, case: dict, impl: Any) -> List[str]:
+        if case["kind"] == "protocol":
+            return [case["req"]]
         if case["kind"] == "adds":
             calls = []
             for c in case["calls"]:
@@ -308,6 +316,8 @@ class C05(core.Check):
 
     def compare(self, case: dict, impl: Any, model: List[str]) -> Optional[str]:
         ans = model[0]
+        if case["kind"] == "protocol":
+            return None if ans == "bad-op" else f"ill-formed request {case['req']!r} answered {ans[:80]!r}"
         m = re.fullmatch(r"(?:(B|R)=(\S*) )n=(\d+) I=(\S*) D=(\S*)", ans)
         if not m:
             return "unparsable model answer " + ans[:200]
@@ -335,12 +345,16 @@ class C05(core.Check):
     # ------------------------------------------------------------------ oracle
     def oracle(self, case: dict, impl: Any) -> List[dict]:
         out: List[dict] = []
+        if case["kind"] == "protocol":
+            return out
         if case["kind"] == "adds":
             if any(c["slaves"] is None for c in case["calls"]):
                 return out  # the None branch is not reachable from Mesh; covered by the correspondence only
             keys = []
             for c in case["calls"]:
-                keys.append(([Fraction(x) for x in c["point"]], frozenset(c["slaves"])))
+                # direct calls may repeat a name; the registry compares sorted lists (from Mesh the lists come from
+                # sets, so the multiset is a set there)
+                keys.append(([Fraction(x) for x in c["point"]], tuple(sorted(c["slaves"]))))
             return self._check_partition(keys, impl["R"], "VertexList.add")
         # ---- assembled mesh
         slaves = {s for _, s in impl["merged"]}
@@ -408,7 +422,7 @@ class C05(core.Check):
         return out
 
     def nontrivial_key(self, case, impl):
-        if not isinstance(impl, dict):
+        if not isinstance(impl, dict) or case["kind"] == "protocol":
             return None
         if case["kind"] == "adds":
             return json.dumps(case, sort_keys=True)
